@@ -9,6 +9,7 @@ LEAN_MODULES = ["KafVerif.Props.C37"]
 OBLIGATIONS = [
     "KafVerif.C37.forward_sound",
     "KafVerif.C37.authorize_sound",
+    "KafVerif.C37.cache_hit_exact_text",
     "KafVerif.C37.truncation_bypass_old",
     "KafVerif.C37.catalog_bypass_old",
     "KafVerif.C37.set_catalog_bypass_old",
@@ -38,7 +39,11 @@ ASSUMPTIONS = [
 ]
 DEFAULT_SEED = 37
 
-TOPICS = ["orders", "payments", "secret", "orders-secret", "shipments-eu", "shipments-us", "audit", "t", "a", "b1"]
+TOPICS = ["orders", "payments", "secret", "orders-secret", "shipments-eu", "shipments-us", "audit", "t", "a", "b1",
+          # topics that differ only in the case of a non-ASCII letter / a rune Unicode folds onto ASCII: the parser (and
+          # the upstream) lower ASCII only, so these are DIFFERENT topics, while strings.ToLower identifies them
+          "café", "cafÉ", "größe", "grÖße", "kelvin", "\u212aelvin", "ωmega", "Ωmega"]
+NONASCII_PAIRS = [("café", "cafÉ"), ("größe", "grÖße"), ("kelvin", "\u212aelvin"), ("ωmega", "Ωmega")]
 ACLS = [
     ([], []),
     (["orders", "payments"], []),
@@ -50,6 +55,9 @@ ACLS = [
     ([" orders ", "", "t"], []),
     (["shipments-??", "a", "b1"], ["shipments-us"]),
     (["orders*"], ["orders-s?cret"]),
+    (["café", "orders"], []),
+    (["größe", "kelvin", "ωmega", "café"], []),
+    ([], ["cafÉ", "grÖße", "\u212aelvin", "Ωmega"]),
 ]
 
 
@@ -161,7 +169,17 @@ def gen_conn(rng, nq):
             q = rng.choice(texts)                       # exact repeat: cache hit
         elif texts and k == 1:
             q = rng.choice(texts)
-            q = q.upper() if rng.chance(1, 2) else q.replace(" ", "  ", 1)   # same normalised key, different text
+            m = rng.below(5)                 # near-duplicates of an earlier text on the same connection
+            if m == 0:
+                q = q.upper()                # ASCII and non-ASCII letters change case
+            elif m == 1:
+                q = q.replace(" ", "  ", 1) if rng.chance(1, 2) else q.replace(" ", "\t", 1)
+            elif m == 2:
+                q = "".join(c.upper() if (ord(c) < 128 and rng.chance(1, 2)) else c for c in q)   # ASCII case only
+            elif m == 3:
+                q = "".join(c.upper() if ord(c) >= 128 else c for c in q)                           # non-ASCII case only
+            else:
+                q = q.swapcase()
         elif texts and k == 2 and len(texts[-1]) > 512:
             q = texts[-1][:515] + rng.choice([" join secret s within 1m last 1h", " x", ""])   # same first 512 bytes
         elif k == 3:
@@ -171,6 +189,17 @@ def gen_conn(rng, nq):
         elif k == 5:
             r = rng.fork()
             q = q35.render(r, q35.gen_query(rng.fork()), case=lambda w: q35.rand_case(r, w))
+        elif k == 6:
+            # a pair on one connection: a statement on one spelling of a topic, then (next round, via the
+            # near-duplicate branch or right here) the other spelling
+            a, b = rng.choice(NONASCII_PAIRS)
+            if rng.chance(1, 2):
+                a, b = b, a
+            q = rng.choice(["select * from %s limit 3", "SELECT * FROM %s LAST 1h", "select * from orders o join %s p within 1m last 1h",
+                            "show partitions from %s", "explain select * from %s limit 1"]) % a
+            texts.append(q)
+            lines.append("q " + hx(q))
+            q = q.replace(a, b) if rng.chance(1, 2) else (q.upper() if rng.chance(1, 2) else q.swapcase())
         else:
             q = topic_query(rng)
             if rng.chance(1, 4):
@@ -220,7 +249,12 @@ def corpus():
     acl2 = ([], ["secret"])
     head2 = "conn 0 0 - %s" % hx("secret")
     qs2 = ["select * from information_schema.tables", "show topics", "select * from orders limit 1"]
-    return [(acl, [head] + ["q " + hx(q) for q in qs], qs), (acl2, [head2] + ["q " + hx(q) for q in qs2], qs2)]
+    acl3 = (["café", "orders"], [])
+    head3 = "conn 300 100 %s -" % ",".join(hx(p) for p in acl3[0])
+    qs3 = ["select * from café last 1h", "SELECT * FROM CAFÉ LAST 1h", "select  *  from café last 1h", "select * from cafÉ last 1h",
+           "select * from orders limit 1", "SELECT * FROM ORDERS LIMIT 1", "select * from \u212aelvin limit 1"]
+    return [(acl, [head] + ["q " + hx(q) for q in qs], qs), (acl2, [head2] + ["q " + hx(q) for q in qs2], qs2),
+            (acl3, [head3] + ["q " + hx(q) for q in qs3], qs3)]
 
 
 def run(ck):
